@@ -26,6 +26,7 @@ Sim *make_hashlong_sim();
 Sim *make_hashgiant_sim();
 Sim *make_hashendure_sim();
 Sim *make_hashfill_sim();
+Sim *make_hashedge_sim();
 Sim *make_hashjump_sim();
 Sim *make_l2mgr_sim();
 Sim *make_stream_sim();
